@@ -45,15 +45,44 @@ static void record_chain(void)
 	}
 }
 
+/* every block handed to the application's free function must have come from the application's malloc function (a pool or
+ * accounting allocator installed through jwt_set_alloc is corrupted otherwise): live blocks are tracked in a hash set */
+#define PT_SIZE (1u << 18)
+static void *pt[PT_SIZE];
+static unsigned long foreign_frees, tracked_allocs;
+static const char *cur_scen = "-";
+static unsigned pt_slot(void *p) { return (unsigned)(((uintptr_t)p >> 4) * 2654435761u) & (PT_SIZE - 1); }
+static void pt_add(void *p)
+{
+	unsigned i = pt_slot(p);
+	while (pt[i] && pt[i] != (void *)1) i = (i + 1) & (PT_SIZE - 1);
+	pt[i] = p;
+}
+static int pt_del(void *p)
+{
+	unsigned i = pt_slot(p);
+	for (unsigned n = 0; n < PT_SIZE && pt[i]; n++, i = (i + 1) & (PT_SIZE - 1))
+		if (pt[i] == p) { pt[i] = (void *)1; return 1; }
+	return 0;
+}
 static void *my_malloc(size_t n)
 {
+	void *p;
 	if (inject_on) {
 		alloc_count++;
 		if (alloc_count == fail_at) { record_chain(); return NULL; }
 	}
-	return malloc(n);
+	p = malloc(n);
+	if (p) { pt_add(p); tracked_allocs++; }
+	return p;
 }
-static void my_free(void *p) { free(p); }
+static void my_free(void *p)
+{
+	if (p && !pt_del(p)) {
+		if (foreign_frees++ < 20) printf("[\"FF\",\"%s\",%ld]\n", cur_scen, fail_at);
+	}
+	free(p);
+}
 
 /* ---- fixtures (created fault-free) -------------------------------------------- */
 static vh_rng_t rng;
@@ -363,6 +392,7 @@ int main(int argc, char **argv)
 		int randomized = s->kind == T_GEN && s->key >= 0 && (KALG[s->key] == JWT_ALG_ES256 || KALG[s->key] == JWT_ALG_ES384 || s->variant == 2);
 		/* baseline */
 		inject_on = 1; alloc_count = 0; fail_at = -1;
+		cur_scen = s->name; fail_at = 0;
 		run_scenario(s, &base);
 		inject_on = 0;
 		n = alloc_count;
@@ -403,6 +433,7 @@ int main(int argc, char **argv)
 			printf("]\n");
 		}
 	}
+	printf("[\"PT\",%lu,%lu]\n", tracked_allocs, foreign_frees);
 	printf("[\"END\"]\n");
 	return 0;
 }
